@@ -356,3 +356,150 @@ def rule_vcount(prog, rep, rid='VC'):
         rep.oblige(rid, not bad2, {'function': f.name})
         for (line, msg) in bad2[:2]:
             rep.violation(rid, f, line, 'num:%s' % msg.split()[0], '%s: %s' % (f.name, msg))
+
+
+def rule_helper_index(prog, rep, rid='V2'):
+    """The index-normalising helpers (static functions that add X->num to a negative `index`) must receive
+    the caller's index untouched, a constant, or a value proven non-negative: normalising twice turns an
+    out-of-range negative index into a valid one."""
+    rep.rule(rid, 'the index handed to an index-normalising helper is the caller\'s unmodified parameter, a constant, or proven >= 0')
+    prog.unit(UNIT)
+    helpers = {}
+    for f in prog.funcs_in(UNIT):
+        for i, p in enumerate(f.params):
+            if p.get('name') and qtype(p) == 'int':
+                nm = p.get('name')
+                norm = any(x.get('kind') == 'CompoundAssignOperator' and x.get('opcode') == '+=' and access_path(children(x)[0]) == nm
+                           and canon(children(x)[1]).endswith('->num') for x in walk(f.body))
+                if norm and f.static:
+                    helpers[f.name] = i
+    rep.notes['index_normalising_helpers'] = sorted(helpers)
+    rep.broken_if(not helpers, 'no index-normalising helper found in qvector.c')
+    for f in sorted(prog.funcs_in(UNIT), key=lambda x: x.line or 0):
+        rd = None
+        facts = None
+        for n in f.cfg.nodes:
+            if n.id not in f.cfg.reachable or not isinstance(n.ast, dict) or n.kind == 'macro':
+                continue
+            for x in walk(n.ast):
+                if x.get('kind') == 'CallExpr' and prog.callee_name(x) in helpers:
+                    i = helpers[prog.callee_name(x)]
+                    args = children(x)[1:]
+                    if i >= len(args):
+                        continue
+                    a = strip(args[i])
+                    rep.instance(rid)
+                    ok = False
+                    why = ''
+                    c = int_value(a)
+                    if c is not None and not isinstance(c, str):
+                        ok, why = True, 'constant %d' % c
+                    elif a.get('kind') == 'DeclRefExpr' and (a.get('_ref') or ('',))[0] == 'param':
+                        if rd is None:
+                            rd = ReachingDefs(f)
+                        ds = rd.reaching(n.id, a['_ref'][1])
+                        if all(d.kind == 'param' for d in ds):
+                            ok, why = True, 'unmodified parameter'
+                        else:
+                            if facts is None:
+                                facts = Facts(f)
+                            st = facts.at(n)
+                            nonneg = any(ft[0] == a['_ref'][2] and ((ft[1] in ('>=', '>') and re.match(r'^\d+$', ft[2])) or
+                                                                     (ft[3] == 'u' and ft[1] in ('<', '<='))) for ft in st)
+                            ok, why = nonneg, 'parameter modified before the call (line(s) %s)%s' % (
+                                sorted({d.line for d in ds if d.kind != 'param'}), ' but proven non-negative' if nonneg else '')
+                    else:
+                        why = 'computed expression %s' % canon(a)[:40]
+                        if facts is None:
+                            facts = Facts(f)
+                    rep.oblige(rid, ok, {'function': f.name, 'call': canon(x)[:50], 'index_argument': why})
+                    if not ok:
+                        rep.violation(rid, f, x.get('_line'), 'idxarg:%s' % prog.callee_name(x),
+                                      '%s() normalises a negative index itself, but %s passes it an index that is a %s: a '
+                                      'back-relative index is resolved twice, so an out-of-range negative index is accepted' % (
+                                          prog.callee_name(x), f.name, why))
+
+
+def rule_growth(prog, rep, rid='G1'):
+    """Automatic growth strictly increases the capacity: every value that can reach resize(newmax) in the
+    `num >= max` branch exceeds max, for every max >= 0 (policy arithmetic evaluated over max = 0..64,
+    initnum = 1..8)."""
+    from .expr import eval_int
+    rep.rule(rid, 'in the growth branch the new capacity passed to resize() is greater than the old one for every capacity >= 0')
+    prog.unit(UNIT)
+    for f in sorted(prog.funcs_in(UNIT), key=lambda x: x.line or 0):
+        rd = None
+        for n in f.cfg.nodes:
+            if n.id not in f.cfg.reachable or not isinstance(n.ast, dict) or n.kind == 'macro':
+                continue
+            for x in walk(n.ast):
+                if x.get('kind') != 'CallExpr':
+                    continue
+                c0 = strip(children(x)[0])
+                nm = c0.get('name') if c0.get('kind') == 'MemberExpr' else prog.callee_name(x)
+                if nm not in ('resize', 'qvector_resize') or f.name == 'qvector_resize':
+                    continue
+                args = children(x)[1:]
+                if len(args) < 2:
+                    continue
+                a = strip(args[1])
+                if rd is None:
+                    rd = ReachingDefs(f)
+                exprs = []
+                if a.get('kind') == 'DeclRefExpr' and (a.get('_ref') or ('',))[0] == 'local':
+                    for d in rd.reaching(n.id, a['_ref'][1]):
+                        if d.rhs is not None and d.kind in ('init', 'assign'):
+                            exprs.append(d.rhs)
+                else:
+                    exprs.append(a)
+                for e in exprs:
+                    rep.instance(rid)
+                    bad = None
+                    base = canon(children(c0)[0]) if c0.get('kind') == 'MemberExpr' else 'vector'
+                    for mx in range(0, 65):
+                        for ini in (1, 2, 8):
+                            v = _eval_member(e, {base + '->max': mx, base + '->initnum': ini, base + '->num': mx})
+                            if v is None:
+                                bad = ('?', mx, ini)
+                                break
+                            if v <= mx:
+                                bad = (v, mx, ini)
+                                break
+                        if bad:
+                            break
+                    rep.oblige(rid, bad is None, {'function': f.name, 'new_capacity': canon(e)[:50]})
+                    if bad and bad[0] != '?':
+                        rep.violation(rid, f, e.get('_line') or x.get('_line'), 'grow:%s' % canon(e)[:30],
+                                      'growth computes new capacity %s = %s for capacity %d: the vector does not grow, the element '
+                                      'is then stored beyond the buffer (or through NULL after resize(0))' % (canon(e)[:40], bad[0], bad[1]))
+                    elif bad:
+                        rep.broken_if(True, 'growth expression %s cannot be evaluated' % canon(e)[:40])
+
+
+def _eval_member(e, env):
+    """eval_int with MemberExpr paths looked up in env by their canonical text"""
+    from .expr import eval_int
+    s = strip(e)
+    if s.get('kind') == 'MemberExpr':
+        return env.get(canon(s))
+    v = int_value(s)
+    if v is not None and not isinstance(v, str):
+        return v
+    k = s.get('kind')
+    if k == 'BinaryOperator':
+        a = _eval_member(children(s)[0], env)
+        b = _eval_member(children(s)[1], env)
+        if a is None or b is None:
+            return None
+        op = s.get('opcode')
+        try:
+            return {'+': a + b, '-': a - b, '*': a * b, '/': (a // b if b else None), '<<': a << b, '>>': a >> b,
+                    '%': (a % b if b else None)}.get(op)
+        except (ValueError, OverflowError):
+            return None
+    if k == 'ConditionalOperator':
+        c = _eval_member(children(s)[0], env)
+        if c is None:
+            return None
+        return _eval_member(children(s)[1 if c else 2], env)
+    return None
